@@ -16,3 +16,4 @@ for q, c in contracts.REGISTRY.items():
                 print("  pc:", str(z3.simplify(a) if z3.is_expr(a) else a)[:600])
             print("  goal:", str(z3.simplify(ob.goal))[:1500])
         print("assumptions:", *rep.assumptions, sep="\n  ")
+        print("abstracted:", *getattr(rep, "abstracted", []), sep="\n  ")
